@@ -114,6 +114,21 @@ CLAIMS = {
    ref="§2 C09"),
 }
 
+# clauses added after seeding round 8 (DESIGN §6)
+EXTRA = {
+ "C01": " Exchange's cached builder is rebuilt on every path after its configuration changed.",
+ "C02": " A growth copy takes the whole old slice (no upper cut other than its own length).",
+ "C03": " Counter loops over a paged table list are bounded by that list's Len(); tables without a relation are selected by Filter.Matches alone in every selector.",
+ "C07": " The incremental cache update and the uncached selectors agree on tables without a relation; the lazily built position map is consulted only after a nil test of that same entry's map.",
+ "C09": " A generic filter's early return in Compile is keyed on a flag set after the last fallible call, so a compilation that panicked in a locked world is repeated rather than half-used while the lock is taken.",
+ "C10": " A failed generic compilation leaves no completion flag behind; a failed registration is rolled back including the relation flag.",
+ "C11": " A call of a function that itself changes entity state and notifies is followed by no component-value copy.",
+ "C13": " Component arguments escape (cross-listed compiler escape verdicts): values read back do not depend on stack reuse.",
+ "C14": " The registry is keyed by the reflect.Type given, so two types never share a column laid out for one of them.",
+ "C18": " Exchange rebuilds its builder after every configuration store; Compile's completion flag and recomputation of every world-derived field.",
+ "C19": " Compile carries nothing over from a compilation for another world: a field it writes is read only after it was written in the same invocation.",
+}
+
 NA_DEFAULT = "no static rule for this property has been built yet in this session; see DESIGN.md §2 for the clauses planned"
 
 def main():
@@ -128,7 +143,8 @@ def main():
     for p in props:
         pid = p['id']
         if pid in CLAIMS and rules.get(pid):
-            c = CLAIMS[pid]
+            c = dict(CLAIMS[pid])
+            c['text'] = c['text'] + EXTRA.get(pid, "")
             checks.append({
               "property_id": pid,
               "quick_cmd": "./run.sh %s quick" % pid,
